@@ -158,10 +158,58 @@ func floatSweep(c *core.Ctx) {
 	c.Sample(map[string]any{"float32_bits": "0x3dcccccd", "text": "f:0.1"})
 }
 
+// runeFamily: strings built from runes at every UTF-8 length / bit-length
+// boundary, through prototext with every option set, in a string field, a
+// bytes field and a map key.
+func runeFamily(c *core.Ctx) {
+	f := univ.Gen("goproto.proto.test3.TestAllTypes")
+	md := f.MT.Descriptor()
+	var runes []rune
+	for bl := 0; bl <= 21; bl++ {
+		for _, r := range []rune{1<<uint(bl) - 1, 1 << uint(bl), 1<<uint(bl) + 1} {
+			if r > 0 && r <= 0x10ffff && (r < 0xd800 || r > 0xdfff) {
+				runes = append(runes, r)
+			}
+		}
+	}
+	runes = append(runes, 0xd7ff, 0xe000, 0xfffd, 0xe0001, 0xf0000, 0xffffd, 0x10fffd)
+	n := 0
+	for _, r := range runes {
+		for _, suf := range []string{"", "0", "f", "\"", "\\"} {
+			s := string(r) + suf
+			m := f.MT.New()
+			m.Set(md.Fields().ByName("singular_string"), protoreflect.ValueOfString(s))
+			m.Set(md.Fields().ByName("singular_bytes"), protoreflect.ValueOfBytes([]byte(s)))
+			m.Mutable(md.Fields().ByName("map_string_string")).Map().Set(protoreflect.ValueOfString(s).MapKey(), protoreflect.ValueOfString(s))
+			want := univ.Snapshot(m)
+			for _, o := range optionSets {
+				n++
+				tb, err := o.Marshal(m.Interface())
+				if err != nil {
+					c.Violation(fmt.Sprintf("prototext.Marshal fails %s rune=%#x suffix=%q", oname(o), r, suf), err.Error())
+					continue
+				}
+				m2 := f.MT.New()
+				if err := prototext.Unmarshal(tb, m2.Interface()); err != nil {
+					c.Violation(fmt.Sprintf("prototext.Unmarshal rejects Marshal output %s rune=%#x suffix=%q", oname(o), r, suf), map[string]any{"err": err.Error(), "text": string(tb)})
+					continue
+				}
+				if got := univ.Snapshot(m2); got != want {
+					c.Violation(fmt.Sprintf("text round trip changes string %s rune=%#x suffix=%q", oname(o), r, suf), string(tb))
+				}
+			}
+		}
+	}
+	c.Eval(int64(n))
+	c.DistinctN(int64(n))
+	c.Bounds["rune_family_cases"] = n
+}
+
 func run(c *core.Ctx) {
 	c.Rule = "messages = all slot lists of length <=k over the slot alphabet of each type (groups, extensions, maps, oneofs, unknown fields, NaN/-0/inf/denormal floats, non-ASCII and control-character strings, arbitrary bytes); each is written with 5 option sets (Multiline, Indent, EmitASCII) and parsed back; the result must be proto.Equal to the original with unknown fields removed recursively and have the same canonical snapshot (float bits identical, NaNs identified). Floats: every float32 bit pattern (thorough: all 2^32; quick: stride 61 plus a full structured exponent x mantissa set) and all doubles with <=2 set / cleared mantissa bits per exponent go through the text encoder and decoder and must come back bit-identical"
 	c.Exhaustive = true
 	floatSweep(c)
+	runeFamily(c)
 	var planOut []map[string]any
 	for _, p := range plans(c) {
 		if c.Expired() {
